@@ -6,7 +6,7 @@ From Verif Require Import Union.Model Union.ModelX Union.ModelP.
 Extraction Language OCaml.
 Extraction "union_model.ml"
   mbuf_empty step op_status staging_handle checkpoint_pos
-  m_get m_iter m_iter_rev m_batch_get view buf_map union_iter
+  m_get m_iter m_iter_rev m_batch_get view buf_map union_iter union_iter_f
   xbuf_empty xstep ybuf_empty ystep x_get_flags x_has_presume_kne x_iter_flags x_snap_get x_snap_iter x_snap_iter_rev x_snap_batch_get revert_legalb
   x_history x_inspect_stage
   pbuf_empty pstep pu_get pu_batch_get
